@@ -1,6 +1,29 @@
 //@file src/repr/edge_list/mod.rs
 // ---- C11: EdgeList::complement (rules E14 / E14b / E14c: both collects become accumulator loops, map / copied stages fused) ----
 
+/// the j-th item of `(0..u).chain((u + 1)..n)`: the range 0..n with u left out
+spec fn compl_skip_idx(u: int, j: int) -> int { if j < u { j } else { j + 1 } }
+
+/// the first n items of s are all in acc (named trigger for loop 3)
+spec fn compl_covered(s: Seq<(usize, usize)>, n: int, acc: Set<(usize, usize)>) -> bool {
+    forall|i: int| 0 <= i < n && i < s.len() ==> acc.contains(#[trigger] s[i])
+}
+
+/// once every item is covered, the set of items is included in acc (fires after loop 3, where no hint can be placed)
+broadcast proof fn lemma_compl_covered_all(s: Seq<(usize, usize)>, n: int, acc: Set<(usize, usize)>)
+    requires
+        #[trigger] compl_covered(s, n, acc),
+        n >= s.len(),
+    ensures
+        s.to_set().subset_of(acc),
+{
+    assert forall|p: (usize, usize)| s.to_set().contains(p) implies acc.contains(p) by {
+        assert(s.contains(p));
+        let i = choose|i: int| 0 <= i < s.len() && s[i] == p;
+        assert(acc.contains(s[i]));
+    }
+}
+
 impl EdgeList {
     /*@fn impl=EdgeList trait=Complement name=complement loopify=BTreeSet fuse wrap=chain props=C11,C13
     requires
@@ -9,5 +32,41 @@ impl EdgeList {
         r.wf(),
         r.ord() == self.ord(),
         forall|a: int, b: int| #![trigger r.has(a, b)] r.has(a, b) == (0 <= a < self.ord() && 0 <= b < self.ord() && a != b && !self.has(a, b)),
+    @fn_start
+        broadcast use {vstd::std_specs::iter::group_iter_axioms, lemma_compl_covered_all};
+        assert(vstd::std_specs::btree::key_obeys_cmp_spec::<(usize, usize)>());
+    @loop 1
+    invariant
+        order == self.order,
+        order > 0,
+        forall|p: (usize, usize)| #[trigger] vx_acc2@.contains(p) == (p.0 < u && p.1 < order && p.0 != p.1),
+    @loop 2
+    invariant
+        order == self.order,
+        order > 0,
+        u < order,
+        it2.iter.obeys_prophetic_iter_laws(),
+        it2.iter.decrease() is Some,
+        it2.seq().len() <= order - 1,
+        it2.iter.will_return_none() ==> it2.seq().len() == order - 1,
+        forall|j: int| 0 <= j < it2.seq().len() ==> #[trigger] it2.seq()[j] == compl_skip_idx(u as int, j) as usize,
+        forall|p: (usize, usize)| #[trigger] vx_acc2@.contains(p) == ((p.0 < u && p.1 < order && p.0 != p.1) || (p.0 == u && p.1 != u && p.1 < compl_skip_idx(u as int, it2.index() as int))),
+    @loop_start 2
+        assert(vx_x2 == it2.seq()[it2.index@]);
+    @loop 3
+    invariant
+        order == self.order,
+        order > 0,
+        it3.iter.obeys_prophetic_iter_laws(),
+        it3.iter.decrease() is Some,
+        it3.seq().unref().to_set() == vx_tmp1@.difference(self.arcs@),
+        forall|p: (usize, usize)| #[trigger] vx_tmp1@.contains(p) == (p.0 < order && p.1 < order && p.0 != p.1),
+        forall|p: (usize, usize)| #[trigger] vx_acc1@.contains(p) ==> vx_tmp1@.contains(p) && !self.arcs@.contains(p),
+        compl_covered(it3.seq().unref(), it3.index() as int, vx_acc1@),
+    @loop_start 3
+        assert(vx_x3 == it3.seq()[it3.index@]);
+        assert(*vx_x3 == it3.seq().unref()[it3.index@]);
+        assert(it3.seq().unref().contains(it3.seq().unref()[it3.index@]));
+        assert(it3.seq().unref().to_set().contains(*vx_x3));
     @*/
 }
